@@ -133,7 +133,9 @@ def s3(tier):
                     continue
                 if va2 in ('own', 'none') and vk2 in ('own', 'none'):
                     continue
-                for n in (0, 1):
+                # under hide_args the count is not looked at (C03's reading): a foreign positional star comes with no
+                # explicit positionals
+                for n in ((0,) if va2 in ('other', 'both') else (0, 1)):
                     out.append(Prog(o, (CallSpec(c, n, (), va2, vk2),), 'return', 'global', None))
     return out
 
